@@ -32,8 +32,33 @@ TRANSFORMS = {
 NONELEM = ('cumsum0', 'flip0')
 
 
+def gen_pseudo_range(rng, n):
+    """an uneven increasing list whose first two entries and last entry are those of an evenly spaced one:
+    f, f+s, ..., f+(k-1)s with the entries in between off the grid (looks like a range to a test of its ends)"""
+    s = rng.randint(2, max(2, (n - 1) // 3))
+    k = rng.randint(4, max(4, (n - 1) // s + 1))
+    while (k - 1) * s > n - 1 and k > 4:
+        k -= 1
+    if (k - 1) * s > n - 1:
+        return None
+    f = rng.randint(0, n - 1 - (k - 1) * s)
+    inner = sorted(rng.sample(range(f + s + 1, f + (k - 1) * s), k - 3)) if f + (k - 1) * s - (f + s + 1) >= k - 3 else None
+    if inner is None:
+        return None
+    l = [f, f + s] + inner + [f + (k - 1) * s]
+    if all(b - a == s for a, b in zip(l[:-1], l[1:])):
+        return None
+    if rng.random() < 0.5:
+        return ('l', l)
+    return ('m', [i in l for i in range(n)])
+
+
 def gen_axis_ix(rng, n, stage):
     r = rng.random()
+    if n >= 7 and rng.random() < 0.08:
+        ix = gen_pseudo_range(rng, n)
+        if ix is not None:
+            return ix
     if r < 0.18:
         return ('s', None, None, None)
     if r < 0.30 and n > 0:
@@ -69,7 +94,7 @@ def shape_after(shape, ixs):
 
 def gen_case(rng):
     ndim = rng.choice([1, 1, 2, 2, 3, 3, 4])
-    shape = [rng.randint(0 if rng.random() < 0.05 else 1, 7) for _ in range(ndim)]
+    shape = [rng.randint(0 if rng.random() < 0.05 else 1, 7 if rng.random() < 0.8 else 10) for _ in range(ndim)]
     chunks = [max(1, rng.randint(1, max(1, n))) for n in shape]
     nstages = rng.choice([1, 1, 1, 2, 3])   # nested first stages
     stages = []
